@@ -54,7 +54,21 @@ def run(tier, seed):
         p, src = genprog.generate(s, FEATURES, maxdepth=2, maxstmts=3)
         extra = rng.choice([[], ['-fstrict-done-token-generation'], ['-fzero-len-input-support'], ['-O3'], ['-O3', '-fstrict-done-token-generation']])
         items.append(('gen:%d' % s, src, ['-fyield-support', '-feof-support'] + extra))
+    # result-code protocol family: runs of yields / yield-then-finish, at every level (-O3 merges them onto consuming transitions)
+    proto = []
+    for i in range(16 if quick else 150):
+        s = rng.randrange(1 << 30)
+        ast, src = genprog.gen_protocol_program(s)
+        lvl = ['-O3', '-O1', '-O2', '-O0'][i % 4]
+        items.append(('proto:%d' % s, src, [lvl, '-fyield-support']))
+        proto.append((('proto:%d' % s, src, [lvl, '-fyield-support']), ast))
     pinned(chk)
+    # ... and the same programs against the procedural reading: DONE / finish codes exactly when the program finishes,
+    # every yield code reported exactly once and in order
+    from props import c01
+    pprogs = runner.compile_programs([it for it, _ in proto], want=('machine', 'codegen'))
+    ppairs = [(p, a) for p, (_, a) in zip(pprogs, proto) if p.ok]
+    cst, ckinds, ccases = c01.run_conform(chk, ppairs, 8 if quick else 11, 1600 if quick else 9000, 'protocol')
     out = ctrace.run_pipeline(chk, items, rng, seed, nwalks=5 if quick else 12, maxlen=9, chunk_mode='all', chunk_limit=12 if quick else 64,
                               post_terminal=2, keep_records=True, cover=8 if quick else 20)
     try:
@@ -92,6 +106,7 @@ def run(tier, seed):
             'states': out['stats']['states'] + st['states'], 'transitions': out['stats']['transitions'] + st['transitions'],
             'traces_validated_against_impl': out['counts']['ACCEPT'] + confirmed,
             **ctrace.cover_cov(out),
+            'protocol_programs_against_source_semantics': len(ppairs), 'conform_states': cst['states'],
             'samples': ctrace.sample_cases(out, 3),
             'programs': len(progs), 'call_history_traces': dict(out['counts']), 'machine_reports': kinds,
             'machine_reports_confirmed_on_binary': confirmed,
